@@ -1703,6 +1703,12 @@ class ModelBuilder:
                                     delta = timedelta(minutes=num)
                                 elif unit == "d":
                                     delta = timedelta(days=num)
+                                elif unit == "w":
+                                    delta = timedelta(weeks=num)
+                                elif unit == "m":
+                                    delta = timedelta(days=30.4167 * num)
+                                elif unit == "y":
+                                    delta = timedelta(days=365 * num)
                                 else:
                                     delta = timedelta(hours=num)
                             else:
